@@ -3,6 +3,7 @@
 package main
 
 import (
+	"encoding/json"
 	"fmt"
 	"math/rand"
 	"sort"
@@ -75,7 +76,22 @@ type vecQuery struct {
 	k        int64
 	filtered bool
 	eligible []uint64
+	// exhaustive: search parameters that make the engine probe every cluster of
+	// a clustered index, so that the result is exact also there
+	exhaustive bool
 }
+
+var exhaustiveParams = json.RawMessage(`{"ivf_nprobe_pct": 100}`)
+
+func (vq vecQuery) params() json.RawMessage {
+	if vq.exhaustive {
+		return exhaustiveParams
+	}
+	return nil
+}
+
+// exactFor: the result of vq on a field with n vectors must be the exact top-k.
+func exactFor(n int, vq vecQuery) bool { return n < 1000 || vq.exhaustive }
 
 // searchOnce opens a handle with the given exclusion bitmap, runs one search
 // and closes the handle.
@@ -93,9 +109,9 @@ func searchHandle(r *oracle.Report, tag string, idx segment.VectorIndex, vq vecQ
 	var pl segment.VecPostingsList
 	var err error
 	if vq.filtered {
-		pl, err = idx.SearchWithFilter(vq.q, vq.k, vq.eligible, nil)
+		pl, err = idx.SearchWithFilter(vq.q, vq.k, vq.eligible, vq.params())
 	} else {
-		pl, err = idx.Search(vq.q, vq.k, nil)
+		pl, err = idx.Search(vq.q, vq.k, vq.params())
 	}
 	if err != nil || pl == nil {
 		r.Fail("vec-search-err", "%s: search: %v", tag, err)
@@ -125,6 +141,9 @@ func searchHandle(r *oracle.Report, tag string, idx segment.VectorIndex, vq vecQ
 			return nil, false
 		}
 		if p == nil {
+			if p2, err := it.Next(); err != nil || p2 != nil {
+				r.Fail("vec-iter-after-end", "%s: call after the last pair returned %v, %v", tag, p2, err)
+			}
 			break
 		}
 		out = append(out, vecPair{p.Number(), p.Score()})
@@ -338,6 +357,13 @@ func genQueries(rng *rand.Rand, vm *model.VecModel, numDocs uint64, light bool) 
 			qs = append(qs, vecQuery{q: mkq(), k: k, filtered: true, eligible: all})
 		}
 	}
+	if len(vm.Entries) >= 1000 {
+		// clustered index: the same queries once more with every cluster probed
+		for _, q := range append([]vecQuery(nil), qs...) {
+			q.exhaustive = true
+			qs = append(qs, q)
+		}
+	}
 	// wrong dimension
 	qs = append(qs, vecQuery{q: make([]float32, vm.Dims+1), k: 3})
 	return qs
@@ -407,7 +433,6 @@ func checkVectors(c *Ctx, tag string, seg segment.Segment, m *model.Seg, rng *ra
 	sort.Strings(names)
 	for _, f := range names {
 		vm := m.Vec[f]
-		exact := len(vm.Entries) < 1000
 		exSet, exBM := genExcept(rng, m.NumDocs, rng.Intn(5))
 		for qi, vq := range genQueries(rng, vm, m.NumDocs, len(vm.Entries) > 200) {
 			t := fmt.Sprintf("%s field %q query %d (k=%d filtered=%v |eligible|=%d |except|=%d)", tag, f, qi, vq.k, vq.filtered, len(vq.eligible), len(exSet))
@@ -415,7 +440,7 @@ func checkVectors(c *Ctx, tag string, seg segment.Segment, m *model.Seg, rng *ra
 			if !ok {
 				continue
 			}
-			checkVecResult(r, t, vm, exSet, vq, got, exact)
+			checkVecResult(r, t, vm, exSet, vq, got, exactFor(len(vm.Entries), vq))
 			r.Inc("vec_searches", 1)
 			if vq.filtered {
 				r.Inc("vec_searches_filtered", 1)
@@ -442,9 +467,9 @@ func checkVectors(c *Ctx, tag string, seg segment.Segment, m *model.Seg, rng *ra
 		for _, vq := range held {
 			var pl segment.VecPostingsList
 			if vq.filtered {
-				pl, err = idx.SearchWithFilter(vq.q, vq.k, vq.eligible, nil)
+				pl, err = idx.SearchWithFilter(vq.q, vq.k, vq.eligible, vq.params())
 			} else {
-				pl, err = idx.Search(vq.q, vq.k, nil)
+				pl, err = idx.Search(vq.q, vq.k, vq.params())
 			}
 			if err != nil || pl == nil {
 				r.Fail("vec-search-err", "%s field %q: search: %v", tag, f, err)
@@ -470,7 +495,7 @@ func checkVectors(c *Ctx, tag string, seg segment.Segment, m *model.Seg, rng *ra
 			if pl.Count() != uint64(len(got)) {
 				r.Fail("vec-count", "%s: Count %d, iterator yields %d", t, pl.Count(), len(got))
 			}
-			checkVecResult(r, t, vm, exSet, held[li], got, len(vm.Entries) < 1000)
+			checkVecResult(r, t, vm, exSet, held[li], got, exactFor(len(vm.Entries), held[li]))
 			r.Inc("vec_results_held_across_searches", 1)
 		}
 		idx.Close()
@@ -505,7 +530,7 @@ func checkVectorsLight(r *oracle.Report, tag string, seg segment.Segment, m *mod
 			t := fmt.Sprintf("%s field %q (k=%d filtered=%v)", tag, f, vq.k, vq.filtered)
 			got, ok := searchOnce(r, t, vs, f, exBM, vq)
 			if ok {
-				checkVecResult(r, t, vm, exSet, vq, got, len(vm.Entries) < 1000)
+				checkVecResult(r, t, vm, exSet, vq, got, exactFor(len(vm.Entries), vq))
 			}
 		}
 	}
